@@ -62,7 +62,9 @@ def _apply(w, inp, ev, fault, tag_acc, base_choice=True):
     kind, val, writes = w.feed(M.line(*ev))
     out, mwrites = M.step(w.st, *ev, conv=("ok", 55 if ev[4] == 0 else 10), fail_write=fault)
     if out.kind == "TransportFailedError":
-        if kind != "err" or type(val).__name__ not in ("TransportFailedError", "TransportError"):
+        # the statement only says a failed request "does not count as sent": the step must fail, with the
+        # transport error or with the original missing-node/child error
+        if kind != "err" or type(val).__name__ not in ("TransportFailedError", "TransportError", "MissingNodeError", "MissingChildError"):
             raise Violation("failed-request-not-reported", "request write failed but listen gave %s %r" % (kind, val))
         tag_acc.append("request-failed")
     else:
